@@ -32,8 +32,8 @@ CLAIM = dict(
          "op histories per adapter + split matrix + clock-controlled rotation sequences, model vs implementation.",
     note="partial: OS/CPython file buffering and __del__-time closing are not modelled; frames are taken as "
          "self-delimiting (C01/C02); known findings: stream writer closed without flush/records leaves an unreadable "
-         "empty file (also the trailing part of a split whose N is a multiple of the limit), Avro flush before the "
-         "first write poisons the container.",
+         "empty file (also the trailing part of a split whose N is a multiple of the limit); the Avro flush-before-"
+         "first-write defect of the pinned tree is repaired (fix: d4d1493) and stated at full strength.",
     technique="Lean 4 state-machine theorems by induction over histories + model/implementation correspondence",
     design="8/C17")
 RULE = ("life: EXHAUSTIVE op histories over {w,f,c,x} up to length 4 (quick) / 5 (thorough) for each of stream, stream+gz, "
